@@ -30,10 +30,12 @@ TIERS = {
     "quick": {
         "selftest": 24, "runs": {"C06": 1400, "C07": 600, "C10": 1400, "C17": 1200},
         "explore_wall": 50, "sweeps": 32, "micropool_len": 2, "micropools": 2, "minimise_s": 45,
+        "hash_runs": 400, "hash_seeds": 2,
     },
     "thorough": {
         "selftest": 192, "runs": {"C06": 40000, "C07": 16000, "C10": 40000, "C17": 36000},
         "explore_wall": 780, "sweeps": 600, "micropool_len": 4, "micropools": 3, "minimise_s": 120,
+        "hash_runs": 6000, "hash_seeds": 4,
     },
 }
 
@@ -51,9 +53,12 @@ def load_known(prop):
     return [f for f in k.get("findings", []) if f["property"] == prop], k.get("fixed", [])
 
 
+REPLAY_DIR = [os.path.join(HERE, "replays")]
+
+
 def write_replay(prop, tag, scenario, violation, oracles, hashseed, known, found_by):
-    os.makedirs(os.path.join(HERE, "replays"), exist_ok=True)
-    path = os.path.join(HERE, "replays", f"{prop}-{tag}.json")
+    os.makedirs(REPLAY_DIR[0], exist_ok=True)
+    path = os.path.join(REPLAY_DIR[0], f"{prop}-{tag}.json")
     rep = {
         "format": "designsim-replay-1",
         "property": prop,
@@ -118,8 +123,8 @@ def selftest(c):
                      "step": step, "detail": f"run seed {s}: the same operation sequence gives different "
                      f"observable outcomes under PYTHONHASHSEED={h1} and {cc['worker_hashseed']} "
                      f"(first at step {step})"}
-                os.makedirs(os.path.join(HERE, "replays"), exist_ok=True)
-                path = os.path.join(HERE, "replays", f"C07-H-{s}.json")
+                os.makedirs(REPLAY_DIR[0], exist_ok=True)
+                path = os.path.join(REPLAY_DIR[0], f"C07-H-{s}.json")
                 with open(path, "w") as fh:
                     json.dump({"format": "designsim-replay-1", "property": "C07", "oracles": ORACLES_OF["C07"],
                                "hashseeds": [h1, int(cc["worker_hashseed"])], "expected": v, "detail": v["detail"],
@@ -199,7 +204,10 @@ def main(argv=None):
     ap.add_argument("--repo", default=os.environ.get("DESIGNSIM_REPO"))
     ap.add_argument("--runs", type=int, default=None)
     ap.add_argument("--no-evidence", action="store_true")
+    ap.add_argument("--replay-dir", default=None)
     a = ap.parse_args(argv)
+    if a.replay_dir:
+        REPLAY_DIR[0] = os.path.abspath(a.replay_dir)
     c = Ctx()
     c.prop, c.tier, c.seed, c.workers, c.repo = a.property, a.tier, a.seed, a.workers, a.repo
     c.T = TIERS[a.tier]
@@ -244,6 +252,7 @@ def main(argv=None):
             if c.prop == "C07" and not c.violations and not agg["violations"]:
                 ev["sweeps"] = run_sweeps(c, pool)
                 ev["micropool"] = run_micropool(c, pool)
+                ev["hash"] = run_hash_phase(c)
             # ---- violations: minimise the earliest one per signature (at most 3)
             seen = set()
             for r in agg["violations"]:
@@ -270,6 +279,80 @@ def main(argv=None):
         return 1
     print(f"OK property={c.prop} tier={c.tier} wall={wall:.1f}s")
     return 0
+
+
+H_FORCE = {"cfg": {"with_faults": False, "max_items": 4},
+           "families_add": ["inter", "star", "power", "slash", "group", "catstr", "catcat", "box"]}
+
+
+def run_hash_phase(c):
+    """Oracle H at scale: the same seeded histories (rich in interactions, no reference process needed)
+    under several PYTHONHASHSEED values; every observable outcome must agree."""
+    n = c.T["hash_runs"]
+    seeds = [mix(c.seed, "hash-phase", c.tier, i) for i in range(n)]
+    hseeds = hashseeds_for(c.seed, c.T["hash_seeds"], salt="hash-phase")
+    t = time.time()
+    per = []
+    for hs in hseeds:
+        pool = Pool(c.workers, [hs], log_path=c.log, repo=c.repo)
+        try:
+            res = explore(pool, "C07", c.tier, seeds, known=c.known_sigs, disabled=c.disabled,
+                          extra={"oracles": ["S"], "force": H_FORCE}, sample_first=0, prefix=f"h{hs}_")
+        finally:
+            pool.close()
+        for r in res:
+            if "harness_error" in r:
+                raise HarnessError(f"hash phase run failed: {r['harness_error']} {r.get('trace', '')[-600:]}")
+        per.append(res)
+    divergent = []
+    for i, s in enumerate(seeds):
+        ds = [(p[i]["digest"], p[i]["ndigest"]) for p in per if i < len(p)]
+        if len(set(ds)) > 1:
+            j = next(k for k in range(1, len(ds)) if ds[k] != ds[0])
+            divergent.append((s, hseeds[0], hseeds[j]))
+    out = {"runs_per_hashseed": n, "hashseeds": hseeds, "divergent_runs": len(divergent),
+           "wall": round(time.time() - t, 1),
+           "s_violations": sum(1 for p in per for r in p if r.get("violation"))}
+    # S violations seen here are ordinary C07 violations
+    for p in per:
+        for r in p:
+            if r.get("violation") and not c.violations:
+                pool = Pool(c.workers, [int(r["worker_hashseed"])], log_path=c.log, repo=c.repo)
+                try:
+                    c_or = c.oracles
+                    c.oracles = ["S"]
+                    handle_violation(c, pool, r, {"phase": "hash phase", "run_seed": r["run_seed"]})
+                    c.oracles = c_or
+                finally:
+                    pool.close()
+    if divergent:
+        s, ha, hb = divergent[0]
+        evs = []
+        for hs in (ha, hb):
+            pool = Pool(1, [hs], log_path=c.log, repo=c.repo)
+            try:
+                r = explore(pool, "C07", c.tier, [s], known=c.known_sigs, disabled=c.disabled,
+                            extra={"oracles": ["S"], "force": H_FORCE, "events": True, "want_scenario": True},
+                            sample_first=0, prefix="hd")[0]
+            finally:
+                pool.close()
+            evs.append(r)
+        step = first_divergence(evs[0]["events"], evs[1]["events"])
+        sc = evs[0]["scenario"]
+        if step is not None:
+            sc["ops"] = sc["ops"][: step + 1]
+        v = {"property": "C07", "oracle": "H", "kind": "hashseed-divergence", "key": "hashseed", "step": step,
+             "detail": f"run seed {s}: the same operation sequence gives different observable outcomes under "
+                       f"PYTHONHASHSEED={ha} and {hb} (first at step {step}: "
+                       f"{sc['ops'][step].get('formula') or sc['ops'][step]['op'] if step is not None else '?'})"}
+        os.makedirs(REPLAY_DIR[0], exist_ok=True)
+        path = os.path.join(REPLAY_DIR[0], f"C07-H-{s}.json")
+        with open(path, "w") as fh:
+            json.dump({"format": "designsim-replay-1", "property": "C07", "oracles": ["S"],
+                       "hashseeds": [ha, hb], "expected": v, "detail": v["detail"], "scenario": sc}, fh, indent=1)
+        c.violations.append((v, path))
+    print(f"hash phase: {out}", flush=True)
+    return out
 
 
 def run_sweeps(c, pool):
@@ -433,6 +516,8 @@ def write_evidence(c, ev, wall, fixed, known_lines):
             "rule": "every line event of the swept evaluate_new_data inside formulae/ (stride 1); stride sample of the "
                     "swept design_matrices; after each abort: S invariants on every live object + un-faulted canary",
         }
+    if ev.get("hash"):
+        coverage["hash_seed_phase"] = ev["hash"]
     if ev.get("micropool"):
         m = ev["micropool"]
         coverage["micropool"] = {"pools": m["pools"], "max_len": m["max_len"], "sequences": m["sequences"],
